@@ -6,6 +6,7 @@ mod record_stream;
 mod replay;
 mod tree_stream;
 mod util;
+mod witness;
 mod world;
 mod wrappers;
 use util::*;
@@ -54,6 +55,7 @@ fn main() {
         "embed" => embed_stream::run(&o),
         "fault" => fault_stream::run(&o),
         "replay" => replay::run(&o),
+        "witness" => witness::run(&o),
         s => {
             eprintln!("unknown stream {}", s);
             std::process::exit(2);
